@@ -121,7 +121,10 @@ def guard_chain(body, fn):
     m = re.match(r"\s*else\s*", t[pos:])
     if not m:
         raise Anchor("%s: no final else" % fn)
-    blk, _ = block_at(t, pos + m.end())
+    blk, end = block_at(t, pos + m.end())
+    if t[end:].strip():
+        # a translator must never ignore a statement
+        raise Anchor("%s: statements after the guard chain: %s" % (fn, t[end:].strip()[:60]))
     flat = re.sub(r"\s+", "", blk)
     if not any(re.match(p, flat) for p in NAME_NEW):
         raise Anchor("%s: the else branch does not start with the Name::new validity test" % fn)
